@@ -1,29 +1,29 @@
 INIT Init
 NEXT Next
 CONSTANTS
-  Shapes <- cShapes
+  Shapes <- cShapesAll
   SymNames <- cSyms
   NameSeq <- cNoSeq
   SensorNames <- cSensors
   ReadingNames <- cReadings
-  Ops <- cOpsRat
+  Ops <- cOpsAll
   Consts <- cConsts
-  MinGrow = 2
-  MaxGrow = 5
-  NPoints = 2
-  Vals <- cValsInt
+  MinGrow = 3
+  MaxGrow = 7
+  NPoints = 3
+  Vals <- cVals
   Dts <- cDts
   CalVals <- cCalVals
   PNoiseVals <- cPNoise
   SNoiseVals <- cSNoise
-  Ks <- cKsAll
+  Ks <- cKsNone
   PDiag <- cPDiag
   PVec <- cPVec
   ZDeltas <- cZDeltas
-  Acts <- cActsAll
-  MinSteps = 4
+  Acts <- cActsEval
+  MinSteps = 5
   MaxSteps = 8
-  RationalOnly = TRUE
+  RationalOnly = FALSE
   NeedDt = FALSE
   BindLeaves = TRUE
   EmitOn = TRUE
